@@ -316,13 +316,57 @@ type errItem struct {
 	b    base
 	file int    // index into world.Files, -1 = unmutated base
 	tok  int    // token index
-	op   string // del | dup
+	op   string // del | dup | respell/<spelling> (the token is an import path literal, alt replaces it)
+	alt  string // respell: the new content of the string literal
+}
+
+// importSpellings: other ways to write the import path p that do not name a file for the compiler (an import path is
+// compared literally: protoc and protocompile both reject these) but that a path-normalising storage layer would map
+// back to the existing file p, plus two that name nothing at all.
+func importSpellings(p string) [][2]string {
+	out := [][2]string{
+		{"dot-slash", "./" + p},
+		{"trailing-slash", p + "/"},
+		{"trailing-dot", p + "/."},
+		{"leading-slash", "/" + p},
+		{"missing-dir", "nope/" + p},
+	}
+	if i := strings.Index(p, "/"); i >= 0 {
+		out = append(out,
+			[2]string{"double-slash", p[:i] + "//" + p[i+1:]},
+			[2]string{"dot-segment", p[:i] + "/./" + p[i+1:]},
+			[2]string{"dotdot-round-trip", p[:i] + "/../" + p},
+		)
+		if j := strings.LastIndex(p, "/"); j != i {
+			out = append(out, [2]string{"inner-dotdot-round-trip", p[:j] + "/../" + p[i+1:]})
+		}
+	}
+	return out
+}
+
+// importLiteralTokens returns the indexes of the string literal tokens of import statements.
+func importLiteralTokens(text string, toks []token) []int {
+	var out []int
+	word := func(i int) string { return text[toks[i].Start:toks[i].End] }
+	for i := range toks {
+		if c := text[toks[i].Start]; c != '"' && c != '\'' {
+			continue
+		}
+		j := i - 1
+		if j >= 0 && (word(j) == "public" || word(j) == "weak") {
+			j--
+		}
+		if j >= 0 && word(j) == "import" && (j == 0 || word(j-1) == ";" || word(j-1) == "}") {
+			out = append(out, i)
+		}
+	}
+	return out
 }
 
 func (rn *runner) runErrorPhase(scratch string) {
 	r := rn.r
 	var items []errItem
-	tokenCount := 0
+	tokenCount, respellCount := 0, 0
 	for _, b := range bases() {
 		items = append(items, errItem{b: b, file: -1})
 		for fi, f := range b.world.Files {
@@ -333,10 +377,18 @@ func (rn *runner) runErrorPhase(scratch string) {
 					items = append(items, errItem{b: b, file: fi, tok: ti, op: op})
 				}
 			}
+			for _, ti := range importLiteralTokens(f.Text, toks) {
+				lit := f.Text[toks[ti].Start+1 : toks[ti].End-1]
+				for _, sp := range importSpellings(lit) {
+					items = append(items, errItem{b: b, file: fi, tok: ti, op: "respell/" + sp[0], alt: sp[1]})
+					respellCount++
+				}
+			}
 		}
 	}
 	r.Set("error_phase_bases", len(bases()))
 	r.Set("error_phase_token_positions", tokenCount)
+	r.Set("error_phase_import_respellings", respellCount)
 	r.Set("error_phase_cases", len(items))
 	cwd, _ := os.Getwd()
 
@@ -353,7 +405,12 @@ func (rn *runner) runErrorPhase(scratch string) {
 			f := w.Files[it.file]
 			t := lex(f.Text)[it.tok]
 			note = fmt.Sprintf("%s: %s token #%d %q of %s", it.b.name, it.op, it.tok, f.Text[t.Start:t.End], f.Ext)
-			f.Text = mutate(f.Text, t, it.op)
+			if it.alt != "" {
+				note = fmt.Sprintf("%s: %s: import %s of %s rewritten to %q", it.b.name, it.op, f.Text[t.Start:t.End], f.Ext, it.alt)
+				f.Text = f.Text[:t.Start] + "\"" + it.alt + "\"" + f.Text[t.End:]
+			} else {
+				f.Text = mutate(f.Text, t, it.op)
+			}
 			w.Files[it.file] = f
 			sigRole = it.op
 		}
@@ -435,6 +492,9 @@ func (rn *runner) runErrorPhase(scratch string) {
 				return
 			}
 			cnt.add("error_cases_compile_error", 1)
+			if it.alt != "" {
+				cnt.add("error_cases_import_respelled", 1)
+			}
 			r.SampleEvery(i, 211, mkCase)
 			r.Distinct("errors|" + note)
 			if len(want) > 1 {
